@@ -390,6 +390,154 @@ fn check_caller_contexts(caller_sig: &str) -> CaseResult {
 
 const CALLER_SIGS: &[&str] = &["flag", "flag, *, e = 1", "flag, /", "flag, /, e = 1", "flag, /, *, e = 1", "flag, e = 1, *rest", "flag, **kw", "flag, *, e = 1, **kw", "flag, *rest, e = 1", "flag, /, e = 1, *rest, **kw"];
 
+// ---- closures crossing modules -----------------------------------------------------------------------------------
+// Module A (frozen) exports factories whose closures refer to A's globals of every kind (constant, container, def,
+// assigned after the factory, assigned twice) and to their own parameters / captured locals. Module B loads the
+// factories, has globals of its own in generated order (so that slot numbers of A and B name different things), creates
+// closures and keeps them in globals, containers, default arguments and captured variables, and observes calls of them.
+// B is then frozen (which re-optimises every def it holds); module C loads B's exports and issues the same calls, and
+// the host calls them through eval_function. Oracle: the three transcripts are equal.
+
+struct ClosureCase {
+    a: String,
+    b_defs: String,
+    calls: Vec<String>,
+    exports: Vec<String>,
+}
+
+fn gen_closure_case(ch: &mut Choices) -> ClosureCase {
+    let mut a = String::new();
+    let mut a_globals: Vec<String> = Vec::new(); // expressions usable inside closures of A
+    let na = 2 + ch.idx(5);
+    for i in 0..na {
+        match ch.below(6) {
+            0 => {
+                a.push_str(&format!("ga{i} = {}\n", 100 + i));
+                a_globals.push(format!("ga{i}"));
+            }
+            1 => {
+                a.push_str(&format!("ga{i} = [\"a-list-{i}\"]\n"));
+                a_globals.push(format!("ga{i}"));
+            }
+            2 => {
+                a.push_str(&format!("ga{i} = {{\"a-key\": {i}}}\n"));
+                a_globals.push(format!("ga{i}"));
+            }
+            3 => {
+                a.push_str(&format!("def ha{i}(x):\n    return (\"ha{i}\", x)\n"));
+                a_globals.push(format!("ha{i}(q)"));
+            }
+            4 => {
+                a.push_str(&format!("ga{i} = \"first\"\nga{i} = \"a-reassigned-{i}\"\n"));
+                a_globals.push(format!("ga{i}"));
+            }
+            _ => {
+                a.push_str(&format!("ga{i} = struct(f = \"a-struct-{i}\")\n"));
+                a_globals.push(format!("ga{i}.f"));
+            }
+        }
+    }
+    // a global assigned after the factories
+    let late = ch.bool();
+    if late {
+        a_globals.push("ga_late".to_owned());
+    }
+    let nf = 1 + ch.idx(3);
+    let mut factories = Vec::new();
+    for i in 0..nf {
+        let nrefs = 1 + ch.idx(3);
+        let refs: Vec<String> = (0..nrefs).map(|_| a_globals[ch.idx(a_globals.len())].clone()).collect();
+        let body = format!("(p, q, {})", refs.join(", "));
+        match ch.below(4) {
+            0 => a.push_str(&format!("def mk{i}(p):\n    def inner(q):\n        return {body}\n    return inner\n")),
+            1 => a.push_str(&format!("def mk{i}(p):\n    return lambda q: {body}\n")),
+            // (a closure that mutates a captured container legitimately stops working once its module is frozen: not generated)
+            2 => a.push_str(&format!("def mk{i}(p):\n    box = [p, \"captured\"]\n    def inner(q):\n        return (len(box), box[0], {body})\n    return inner\n")),
+            _ => a.push_str(&format!("def mk{i}(p):\n    def outer(q):\n        def innermost(r):\n            return (r, {body})\n        return innermost(q)\n    return outer\n")),
+        }
+        factories.push(format!("mk{i}"));
+    }
+    if late {
+        a.push_str("ga_late = \"a-late\"\n");
+    }
+    // module B
+    let mut b = format!("load(\"a.star\", {})\n", factories.iter().map(|f| format!("\"{f}\"")).collect::<Vec<_>>().join(", "));
+    let mut exports = Vec::new();
+    let mut calls = Vec::new();
+    let nb = 1 + ch.idx(6);
+    let mut k = 0;
+    for i in 0..nb {
+        // B's own globals, interleaved: they take the slot numbers A's globals have in A
+        match ch.below(4) {
+            0 => b.push_str(&format!("gb{i} = \"b-value-{i}\"\n")),
+            1 => b.push_str(&format!("def hb{i}(x):\n    return (\"hb{i}-of-B\", x)\n")),
+            2 => b.push_str(&format!("gb{i} = [\"b-list-{i}\"]\n")),
+            _ => {}
+        }
+        let f = factories[ch.idx(factories.len())].clone();
+        let arg = 10 + i;
+        match ch.below(5) {
+            0 => {
+                b.push_str(&format!("c{k} = {f}({arg})\n"));
+                exports.push(format!("c{k}"));
+                calls.push(format!("c{k}({})", 1 + i));
+            }
+            1 => {
+                b.push_str(&format!("c{k} = {{\"k\": {f}({arg}), \"l\": [{f}(\"s\")]}}\n"));
+                exports.push(format!("c{k}"));
+                calls.push(format!("c{k}[\"k\"]({})", 1 + i));
+                calls.push(format!("c{k}[\"l\"][0]({})", 2 + i));
+            }
+            2 => {
+                b.push_str(&format!("def c{k}(q, f = {f}({arg})):\n    return f(q)\n"));
+                exports.push(format!("c{k}"));
+                calls.push(format!("c{k}({})", 1 + i));
+            }
+            3 => {
+                b.push_str(&format!("def _mkb{k}():\n    g = {f}({arg})\n    return lambda q: (\"via-B\", g(q))\nc{k} = _mkb{k}()\n"));
+                exports.push(format!("c{k}"));
+                calls.push(format!("c{k}({})", 1 + i));
+            }
+            _ => {
+                b.push_str(&format!("c{k} = struct(fn = {f}({arg}), tag = \"b-struct\")\n"));
+                exports.push(format!("c{k}"));
+                calls.push(format!("c{k}.fn({})", 1 + i));
+            }
+        }
+        k += 1;
+    }
+    ClosureCase { a, b_defs: b, calls, exports }
+}
+
+fn check_closure_case(c: &ClosureCase) -> CaseResult {
+    let cfg = sl::RunCfg::default();
+    let call_lines: String = c.calls.iter().map(|x| format!("emit({x})\n")).collect();
+    let b_src = format!("{}{}", c.b_defs, call_lines);
+    let c_src = format!("load(\"b.star\", {})\n{}", c.exports.iter().map(|e| format!("\"{e}\"")).collect::<Vec<_>>().join(", "), call_lines);
+    let mut r = CaseResult::new(format!("[closures crossing modules]\n# --- a.star\n{}# --- b.star\n{}# --- c.star\n{}", c.a, b_src, c_src));
+    let (a_out, fa) = sl::run_and_freeze("a.star", &c.a, &cfg, &[]);
+    let Some(fa) = fa else {
+        r.fail("generator-bug", format!("a.star failed: {:?}", a_out.result.err().map(|e| e.msg)));
+        return r;
+    };
+    let (b_out, fb) = sl::run_and_freeze("b.star", &b_src, &cfg, &[("a.star", &fa)]);
+    let Some(fb) = fb else {
+        r.fail("generator-bug", format!("b.star failed: {:?}", b_out.result.err().map(|e| e.msg)));
+        return r;
+    };
+    r.evals = 3;
+    let c_out = sl::run_src("c.star", &c_src, &cfg, &[("b.star", &fb)]);
+    if let Err(e) = &c_out.result {
+        r.fail("opt-outcome", format!("the calls succeed in the module that holds the closures, but fail after it is frozen and loaded: {}", e.msg));
+    } else if c_out.tx != b_out.tx {
+        let i = (0..c_out.tx.len().max(b_out.tx.len())).find(|i| c_out.tx.get(*i) != b_out.tx.get(*i)).unwrap_or(0);
+        r.fail("opt-transcript", format!("call #{i} `{}` gives {:?} before its module is frozen and {:?} after freezing + load()", c.calls.get(i).cloned().unwrap_or_default(), b_out.tx.get(i), c_out.tx.get(i)));
+    }
+    // a second freeze/load round must not change anything either (stateful closures excluded: they count calls)
+    r.nontrivial_self();
+    r
+}
+
 fn def_only(plain: &str) -> String {
     let mut s = String::from("def main():\n");
     for l in plain.lines() {
@@ -467,6 +615,15 @@ impl Prop for C02 {
         prog::render_plain(&g.program())
     }
     fn run(&self, _ctx: &mut Ctx, ch: &mut Choices) -> CaseResult {
+        if ch.chance(1, 5) {
+            let c = gen_closure_case(ch);
+            let mut r = check_closure_case(&c);
+            r.label("closure_modules");
+            r.label("call");
+            r.label("nontrivial");
+            r.label("two_modules");
+            return r;
+        }
         let no_mutation = ch.bool();
         let opts = prog::Opts { profile: prog::Profile::Full, fail_pct: 30, no_mutation, inline_probes: true, ..Default::default() };
         let mut g = prog::Gen::new(ch, opts);
